@@ -22,7 +22,7 @@ S0, S1 = 1 << 20, 24          # Go bytes allowed: S0 + S1 * (alloc_m + 64 * step
 # model cost must satisfy alloc + steps <= A * len + F with the constants of the theorems in Properties/C10.lean
 # (alloc and steps are bounded separately there: the sum is bounded by twice the bound; bundle: C10.bundle_linear_partial)
 LINEAR = {'c10.cbor': (8, 12), 'c10.cert': (12, 16), 'c10.sxg': (14, 2 * (2**24 + 6)), 'c10.subset': (8, 18), 'c10.mice': (6, 2 * 522), 'c10.sh': (3, 1),
-          'c10.ib': (0, 18), 'c10.verify': (12, 33829), 'c10.bundle': (28, 520)}
+          'c10.ib': (0, 18), 'c10.verify': (12, 33829), 'c10.bundle': (28, 520), 'c10.bundleverify': (56, 1040)}
 
 BIG = [1 << 16, (1 << 24) - 1, 1 << 28, (1 << 31) - 1, 1 << 31, (1 << 32) - 1, 1 << 32, 1 << 40, (1 << 62), (1 << 63) - 1, 1 << 63, (1 << 64) - 1]
 
@@ -98,7 +98,7 @@ def explain(op, g, m):
 def finding_site(op, g, m):
     """call-site identification for known findings"""
     pm = parse(m)
-    if op.startswith('c10.bundle ') and pm and len(pm[3]) == 2:
+    if op.startswith(('c10.bundle ', 'c10.bundleverify ')) and pm and len(pm[3]) == 2:
         n, tot = int(pm[3][0]), int(pm[3][1])
         if n > 1 and tot > inlen(op):
             return 'bundle.Read/loadResponse:overlapping-index-entries'
@@ -142,8 +142,25 @@ def inflations(data, rng, limit):
     return out
 
 
-def mutants(data, rng, ntrunc, nflip, ninfl):
+KEYS = [b'cert', b'ocsp', b'sct', b'authority', b'sig', b'signed', b'index', b'responses', b'primary', b'manifest', b'signatures', b':status', b':method', b':url',
+        b'validity-url', b'auth-sha256', b'date', b'expires', b'subset-hashes', b'content-type', b'digest', b'variants', b'variant-key']
+
+
+def key_flips(data):
+    """size-preserving renames of known map keys / section names (a required key goes missing, an unknown one appears)"""
     out = []
+    for k in KEYS:
+        for hb in (0x60 + len(k), 0x40 + len(k)):
+            pat = bytes([hb]) + k
+            i = data.find(pat)
+            while i >= 0:
+                out.append(data[:i + len(pat) - 1] + bytes([data[i + len(pat) - 1] ^ 1]) + data[i + len(pat):])
+                i = data.find(pat, i + 1)
+    return out
+
+
+def mutants(data, rng, ntrunc, nflip, ninfl):
+    out = key_flips(data)
     if len(data) <= ntrunc:
         out += [data[:i] for i in range(len(data))]
     else:
@@ -298,6 +315,16 @@ def run(ctx):
         import c05          # (lazy: c05 imports this module)
         for mu in mutants(f, rng, 40, 60, 25) + retabled(f) + c05.index_mutants(f):
             ops.append(f'c10.bundle {hexs(mu)}')
+    # bundles with a signatures section: reader + bundle-signature verifier
+    sb = [rand_bundle(rng, v, w) for v in ('b1', 'b2') for _ in range(12 * scale)]
+    sb = [b for b in sb if b.split(' ')[3] != 'nil'][:6 * scale]
+    res = ctx.go([f'bundle.write {b}' for b in sb])
+    for r in res:
+        if not (r and r.startswith('ok ')): continue
+        f = unhex(r.split(' ')[1])
+        ops.append(f'c10.bundleverify {hexs(f)} {date + 5}')
+        for mu in mutants(f, rng, 10, 20, 10):
+            ops.append(f'c10.bundleverify {hexs(mu)} {date + 5}')
     for magic in (bytes([0x86, 0x48, 0xf0, 0x9f, 0x8c, 0x90, 0xf0, 0x9f, 0x93, 0xa6, 0x44]) + b'b1\0\0', bytes([0x85, 0x48, 0xf0, 0x9f, 0x8c, 0x90, 0xf0, 0x9f, 0x93, 0xa6, 0x44]) + b'b2\0\0'):
         for _ in range(20 * scale):
             ops.append(f'c10.bundle {hexs(magic + rbytes(rng, rng.randrange(0, 60)))}')
